@@ -627,7 +627,7 @@ func buildReq(chain []node, v int, alt bool) reqInfo {
 // ---------------------------------------------------------------- running
 
 type selResult struct {
-	idx     int // -1 nil, -2 panic:idx, -3 panic:div, -4 panic:other
+	idx     int // -1 nil, -2 panic:idx, -3 panic:div, -4 panic:other, -5 panic:nil
 	cookies []string
 }
 
@@ -641,6 +641,8 @@ func (r selResult) String() string {
 		return "panic:div"
 	case -4:
 		return "panic:other"
+	case -5:
+		return "panic:nil"
 	}
 	s := strconv.Itoa(r.idx)
 	for _, c := range r.cookies {
@@ -660,6 +662,8 @@ func selectOnce(sel reverseproxy.Selector, pool reverseproxy.UpstreamPool, specs
 				res = selResult{idx: -2}
 			case strings.Contains(msg, "divide by zero"):
 				res = selResult{idx: -3}
+			case strings.Contains(msg, "nil pointer dereference"):
+				res = selResult{idx: -5}
 			default:
 				res = selResult{idx: -4}
 			}
